@@ -174,7 +174,7 @@ class Evaluator:
                           "unpack": lambda f_, b_: _st.unpack(f_, bytes(b_)), "BytesIO": lambda b_=b"": FileStandIn(bytes(b_)),
                           "math": Namespace(ceil=_m.ceil, floor=_m.floor, log=_m.log, log2=_m.log2, sqrt=_m.sqrt), "ceil": _m.ceil, "floor": _m.floor,
                           "hashlib": Namespace(sha256=_hl.sha256, sha1=_hl.sha1, sha512=_hl.sha512, new=_hl.new, pbkdf2_hmac=_hl.pbkdf2_hmac),
-                          "hmac": Namespace(new=_hm.new, compare_digest=_hm.compare_digest, digest=_hm.digest),
+                          "hmac": Namespace(new=_hm.new, compare_digest=_hm.compare_digest, digest=_hm.digest, HMAC=_hm.HMAC),
                           "itertools": Namespace(accumulate=_lz(_it.accumulate), chain=_lz(_it.chain), combinations=_lz(_it.combinations), permutations=_lz(_it.permutations),
                                                  product=_lz(_it.product), islice=_lz(_it.islice), zip_longest=_lz(_it.zip_longest), repeat=_it.repeat, count=_it.count,
                                                  takewhile=_lz(_it.takewhile), dropwhile=_lz(_it.dropwhile), starmap=_lz(_it.starmap)),
